@@ -261,7 +261,7 @@ def build_plan(plan):
     return ch
 
 
-def run_real(path, root_hex, pre_root_hex=None):
+def run_real(path, root_hex, pre_root_hex=None, pre=()):
     """The code under test.  Returns the projected observation.  With `pre_root_hex` the certificate
     object is first asked about that other root and only then about `root_hex`: the verdict is a function
     of (certificate, root of trust), so an answer remembered from an earlier query shows as a difference."""
@@ -270,9 +270,9 @@ def run_real(path, root_hex, pre_root_hex=None):
         cert = HSMCertificate.from_jsonfile(path)
     except Exception as e:          # any exception is "reports an error"
         return {"outcome": "error", "err": "%s: %s" % (type(e).__name__, str(e)[:120]), "res": []}
-    if pre_root_hex is not None:
+    for earlier in ([pre_root_hex] if pre_root_hex is not None else []) + list(pre):
         try:
-            cert.validate_and_get_values(HSMCertificateRoot(pre_root_hex))
+            cert.validate_and_get_values(HSMCertificateRoot(earlier))
         except Exception:
             pass
     try:
@@ -304,7 +304,307 @@ def execute(job):
     obs2 = run_real(path, ch.root_hex, pre_root_hex=alt)
     if obs2 != obs:
         t["also"] = trace_of(ch, obs2)
+    # ... and to an object that has already answered this very question (once, twice): validation must
+    # not consume or remember anything
+    for pre in ([ch.root_hex], [ch.root_hex, alt, ch.root_hex]):
+        obs3 = run_real(path, ch.root_hex, pre=pre)
+        if obs3 != obs:
+            t.setdefault("more", []).append(trace_of(ch, obs3))
+            break
     return t
+
+
+# ------------------------------------------------------------------------------------------------------
+# histories: several operations on the same certificate object(s)
+# ------------------------------------------------------------------------------------------------------
+def _project(res):
+    out = []
+    for t, v in res.items():
+        valid = bool(v[0])
+        out.append({"target": t if isinstance(t, str) else repr(t), "valid": valid,
+                    "name": "" if valid else str(v[1]),
+                    "value": (v[1].lower() if isinstance(v[1], str) else repr(v[1])) if valid else "",
+                    "tweak": (v[2] if len(v) > 2 and v[2] is not None else "") if valid else ""})
+    return out
+
+
+def _validate(obj, ch, which):
+    """One validate on the real object, recorded with the content the builder knows it has NOW."""
+    from admin.certificate import HSMCertificateRoot
+    hexkey = ch.keys["root"].hex if which == "right" else ch.keys["x"].hex
+    try:
+        obs = {"outcome": "loaded", "err": "", "res": _project(obj.validate_and_get_values(HSMCertificateRoot(hexkey)))}
+    except Exception as e:
+        obs = {"outcome": "loaded", "err": "validate raised %s: %s" % (type(e).__name__, str(e)[:120]), "res": []}
+    t = trace_of(ch, obs)
+    t["rootkey"] = "k_root" if which == "right" else "k_x"
+    return t
+
+
+def paths_ok(elements, targets):
+    """Own walk over the builder's content: every target reaches the root without a cycle."""
+    by = {e["name"]: e["signed_by"] for e in elements}
+    for t in targets:
+        seen, n = set(), t
+        while True:
+            if not isinstance(n, str) or n not in by or n in seen:
+                return False
+            if by[n] == "root":
+                break
+            seen.add(n)
+            n = by[n]
+    return True
+
+
+def run_history(ch, obj, ops, scratch, tag):
+    """Apply `ops` to the real object `obj` and, in step, to the builder's chain `ch`; every validate
+    yields one trace (judged against the content at that moment and the root it was given)."""
+    from admin.certificate import HSMCertificate, HSMCertificateElement
+    traces = []
+    for op in ops:
+        k = op[0]
+        if k == "validate":
+            t = _validate(obj, ch, op[1])
+            t["step"] = "%s: validate(%s root)" % (tag, op[1])
+            traces.append(t)
+        elif k == "todict":
+            obj.to_dict()
+        elif k == "reload":
+            p2 = os.path.join(scratch, "c06_%d_%s.json" % (os.getpid(), tag))
+            obj.save_to_jsonfile(p2)
+            obj = HSMCertificate.from_jsonfile(p2)
+        elif k == "clear":
+            obj.clear_targets()
+            ch.cert["targets"] = []
+        elif k == "addtarget":
+            obj.add_target(op[1])
+            ch.cert["targets"].append(op[1])
+        elif k == "addel":
+            i = ch.put_element(_item(op[1], ch.rng))
+            for kind, opt in op[2]:
+                try:
+                    ch.corrupt(kind, i, ch.rng, **opt)
+                except (ValueError, KeyError, IndexError):      # not applicable to this element
+                    pass
+            obj.add_element(HSMCertificateElement(ch.rendered()["elements"][i]))
+        else:
+            raise ValueError("unknown operation %r" % (op,))
+    return traces, obj
+
+
+def _item(e, rng):
+    it = {"name": e["name"], "signed_by": e["signed_by"], "compressed": e.get("compressed", False),
+          "shape": e.get("shape", "canon")}
+    if "signer" in e:
+        it["signer"] = e["signer"]
+    if e.get("tweak"):
+        it["tweak"] = "random"
+    if e.get("leafmsg"):
+        it["message"] = bytes(rng.randrange(256) for _ in range(e["leafmsg"]))
+    return it
+
+
+def execute_any(job):
+    plan = job[0]
+    return execute_history(job) if ("ops" in plan or "pair" in plan or plan.get("origin")) else execute(job)
+
+
+def execute_history(job):
+    """Worker entry for a history plan: {"origin": "loaded" | "built", base plan fields, "ops": [...]},
+    or a pair plan {"pair": [planA, planB], "order": [...]}.  Returns the first trace with the others
+    under "more"."""
+    from admin.certificate import HSMCertificate
+    plan, scratch = job
+    if "pair" in plan:
+        return execute_pair(plan, scratch)
+    ch = build_plan(plan)
+    traces = []
+    if plan.get("origin") == "built":
+        obj = HSMCertificate()
+    else:
+        path = os.path.join(scratch, "c06_%d.json" % os.getpid())
+        ch.dump(path)
+        try:
+            obj = HSMCertificate.from_jsonfile(path)
+        except Exception as e:
+            return trace_of(ch, {"outcome": "error", "err": "%s: %s" % (type(e).__name__, str(e)[:120]), "res": []})
+        t = _validate(obj, ch, "right" if ch.root_sym == "k_root" else "other")
+        t["step"] = "loaded: validate"
+        traces.append(t)
+    more, obj = run_history(ch, obj, plan.get("ops", []), scratch, "h")
+    traces += more
+    if not traces:      # a built object that was never asked anything
+        traces = [trace_of(ch, {"outcome": "loaded", "err": "", "res": []})]
+        traces[0]["targets"] = []
+    first = traces[0]
+    first["more"] = traces[1:]
+    return first
+
+
+def execute_pair(plan, scratch):
+    """Two different certificate objects in one process, validated alternately."""
+    from admin.certificate import HSMCertificate
+    chs, objs = [], []
+    for k, p in enumerate(plan["pair"]):
+        ch = build_plan(p)
+        path = os.path.join(scratch, "c06_%d_%d.json" % (os.getpid(), k))
+        ch.dump(path)
+        try:
+            objs.append(HSMCertificate.from_jsonfile(path))
+        except Exception as e:
+            objs.append(None)
+        chs.append(ch)
+    traces = []
+    for k, which in plan["order"]:
+        if objs[k] is None:
+            continue
+        t = _validate(objs[k], chs[k], which)
+        t["step"] = "object %d: validate(%s root)" % (k, which)
+        traces.append(t)
+    if not traces:
+        return trace_of(chs[0], {"outcome": "error", "err": "neither certificate loads", "res": []})
+    first = traces[0]
+    first["more"] = traces[1:]
+    return first
+
+
+def history_plan_from_behaviour(b, rng):
+    """Concretise one behaviour of a history configuration (GenH*): replay its log of decisions and
+    operations.  A decision about an element's link made AFTER an add_element of that element belongs to
+    the element that was added."""
+    log = b["log"] if isinstance(b["log"], list) else []
+    origin = "built" if (log and log[0]["k"] == "origin") else "loaded"
+    gen = {}
+    links = {}                              # (name, generation) -> link decision
+    first_op = next((i for i, e in enumerate(log) if e["k"].startswith("op:")), len(log))
+    for e in log:
+        if e["k"] == "op:addel":
+            gen[e["n"]] = gen.get(e["n"], 0) + 1
+        elif e["k"] == "link":
+            links[(e["n"], gen.get(e["n"], 0))] = e
+
+    def spec(n, p, l):
+        it = {"name": n, "signed_by": rng.choice(GHOSTS) if p == "ghost" else p, "compressed": rng.random() < 0.4,
+              "leafmsg": 0, "shape": "canon", "tweak": (l["tw"] != "none") if l else rng.random() < 0.5}
+        cs = []
+        if l:
+            if l["a"] != p:
+                it["signer"] = l["a"]
+            if l["corr"] in CORR_OP:
+                cs.append([CORR_OP[l["corr"]], {}])
+        return it, cs
+    # initial content: what _parse read (a loaded object); present = decided and not absent
+    elements, corrs = [], []
+    initial = [(e["n"], e["a"]) for e in log[:first_op] if e["k"] == "by" and e["a"] != "absent" and e["n"] != "ghost"]
+    if origin == "loaded":
+        # `by` decisions are only taken while parsing, i.e. before the first operation
+        for n, p in initial:
+            it, cs = spec(n, p, links.get((n, 0)))
+            elements.append(it)
+            corrs += [[k, len(elements) - 1, o] for k, o in cs]
+    gen = {}
+    ops = []
+    for e in log[first_op:]:
+        k = e["k"]
+        if k == "op:validate":
+            ops.append(["validate", "right" if e["a"] == "k_root" else "other"])
+        elif k == "op:passive":
+            ops.append([rng.choice(["todict", "reload"])])
+        elif k == "op:clear":
+            ops.append(["clear"])
+        elif k == "op:addtarget":
+            ops.append(["addtarget", e["n"]])
+        elif k == "op:addel":
+            gen[e["n"]] = gen.get(e["n"], 0) + 1
+            it, cs = spec(e["n"], e["a"], links.get((e["n"], gen[e["n"]])))
+            ops.append(["addel", it, cs])
+    targets = [rng.choice(GHOST_TARGETS) if t == "ghost" else t for t in _initial_targets(b, log, first_op)]
+    plan = {"seed": rng.randrange(1 << 62), "origin": origin, "targets": targets if origin == "loaded" else [],
+            "elements": elements, "corrs": corrs, "ops": ops, "src": "model-history"}
+    if any(e["k"] == "root" and e["a"] == "k_x" for e in log[:first_op]):
+        plan["corrs"].append(["wrong_root", None, {}])
+    return plan
+
+
+def _initial_targets(b, log, first_op):
+    """The target list the object was loaded with (logged by the model)."""
+    return [e["n"] for e in log if e["k"] == "target0"]
+
+
+def random_history_plan(rng):
+    """Binding B for histories: a random certificate, then 2-4 random operations on the same object
+    (validations prevail; content changes keep every target's path to the root intact)."""
+    base = random_plan(rng)
+    # (no re-parenting after the fact: the operations below are planned on the declared graph)
+    base["corrs"] = [c for c in base["corrs"] if c[0] != "reparent"
+                     and (c[0] != "respell" or c[2]["member"] in certv1.SPELL_ACCEPTED)]
+    els = [dict(e) for e in base["elements"]]
+    targets = list(base["targets"])
+    ops = []
+    for _ in range(rng.choice([2, 3, 4])):
+        r = rng.random()
+        names = [e["name"] for e in els]
+        if r < 0.5:
+            ops.append(["validate", "right" if rng.random() < 0.75 else "other"])
+        elif r < 0.6:
+            ops.append([rng.choice(["todict", "reload"])])
+        elif r < 0.68:
+            ops.append(["clear"])
+            targets = []
+        elif r < 0.82:
+            cand = [n for n in names if paths_ok(els, targets + [n])]
+            if cand:
+                t = rng.choice(cand)
+                ops.append(["addtarget", t])
+                targets.append(t)
+        else:
+            n = rng.choice(NAMES)
+            for _try in range(6):
+                p = rng.choice(names + ["root", "root"])
+                new = [e for e in els if e["name"] != n] + [{"name": n, "signed_by": p}]
+                if paths_ok(new, targets):
+                    it = {"name": n, "signed_by": p, "tweak": rng.random() < 0.5, "compressed": rng.random() < 0.4,
+                          "leafmsg": 0, "shape": "canon"}
+                    cs = [[rng.choice(["sig_flip", "msg_flip", "sig_other_key"]), {}]] if rng.random() < 0.25 else []
+                    ops.append(["addel", it, cs])
+                    els = [e for e in els if e["name"] != n] + [it]
+                    break
+    ops.append(["validate", "right"])
+    base["ops"] = ops
+    base["origin"] = "loaded"
+    base["src"] = "random-history"
+    return base
+
+
+def built_history_plan(rng):
+    """An object built step by step: HSMCertificate(), add_element ..., add_target ..., validate, validate."""
+    k = rng.randrange(1, 5)
+    names = rng.sample(NAMES, k)
+    ops, els = [], []
+    for i, n in enumerate(names):
+        p = "root" if i == 0 else rng.choice(names[:i] + ["root"])
+        it = {"name": n, "signed_by": p, "tweak": rng.random() < 0.5, "compressed": rng.random() < 0.4,
+              "leafmsg": 0, "shape": "canon"}
+        cs = [[rng.choice(["sig_flip", "msg_flip", "sig_other_key", "tweak_flip"]), {}]] if rng.random() < 0.25 else []
+        ops.append(["addel", it, cs])
+        els.append(it)
+    for t in rng.sample(names, rng.randrange(1, k + 1)):
+        ops.append(["addtarget", t])
+    ops += [["validate", "right"], ["validate", rng.choice(["right", "right", "other"])], ["validate", "right"]]
+    if rng.random() < 0.5:
+        n = rng.choice(names)
+        it = dict(next(e for e in els if e["name"] == n), tweak=rng.random() < 0.5)
+        ops += [["addel", it, []], ["validate", "right"]]
+    return {"seed": rng.randrange(1 << 62), "origin": "built", "targets": [], "elements": [], "corrs": [],
+            "ops": ops, "src": "built-history"}
+
+
+def pair_plan(rng):
+    a, b = random_plan(rng), random_plan(rng)
+    order = [[0, "right"], [1, "right"], [0, "right"], [1, rng.choice(["right", "other"])],
+             [0, rng.choice(["right", "other"])], [1, "right"], [0, "right"]]
+    return {"pair": [a, b], "order": order, "src": "two-objects", "seed": a["seed"], "targets": a["targets"],
+            "elements": a["elements"], "corrs": a["corrs"]}
 
 
 def trace_of(ch, obs):
